@@ -191,6 +191,7 @@ class Machine:
         self.ev = AbsEval(ops)
         self.max_steps = max_steps
         self.max_outcomes = max_outcomes
+        self.forked = False  # did any step have more than one successor (an uninterpreted condition / outcome)?
 
     def run(self, env: Dict[str, Any], start: Optional[Node] = None,
             stop: Optional[Callable[[Node], bool]] = None) -> List[Outcome]:
@@ -206,7 +207,10 @@ class Machine:
                 if len(out) > self.max_outcomes:
                     raise AnalysisError(f"{self.cfg.unit.short}: abstract evaluation exceeds {self.max_outcomes} executions")
                 continue
-            for nxt, e2 in self.step(node, e):
+            successors = self.step(node, e)
+            if len(successors) > 1:
+                self.forked = True
+            for nxt, e2 in successors:
                 work.append((nxt, path, e2, steps + 1))
         return out
 
